@@ -1966,6 +1966,10 @@ class Machine:
                 args = list(args[0][1])
             else:
                 raise Unanalysable("argument count mismatch calling %s" % inst["name"])
+        elif argc == 2 and args[1][0] == "agg" and len(args[1][1]) == 1 and "{closure#" in inst["npath"] \
+                and self.ty(body["locals"][2]["ty"])["k"] not in ("tuple", "adt"):
+            # rust-call ABI with a one-element argument tuple (a closure called through Fn*::call)
+            args = [args[0], args[1][1][0]]
         for i, a in enumerate(args):
             fr.locals[i + 1] = a
         fr.dest = dest
